@@ -17,28 +17,30 @@
 (***************************************************************************)
 EXTENDS Naturals, Sequences, TLC, Json, IOUtils
 
-CONSTANTS MaxOps, MaxEnv, MaxUpd, MaxHist
+CONSTANTS MaxOps, MaxEnv, MaxUpd, MaxHist,
+          Fix        \* BOOLEAN: model the proposed repair (an answer is dropped when a poll has been applied since its request was sent)
 
 VARIABLES tv, seen,                       \* contract
           ts,                             \* API server's state of the container
           cin, cs, cv,                    \* cache entry: present, state, version
           op,                             \* call in flight [k, st, rs, rv, late]
           upd, dontupd, uafter,           \* Update in progress; c in dontupdate; an op was in flight when it began
+          ndone,                          \* number of completed Updates (the repair's updateSeq)
           taint,                          \* a late answer has been applied and no clean poll since
           nops, nenv, nupd, last, hist
 
 C == INSTANCE QueueCacheContract
 qcvars == <<tv, seen>>
-vars == <<tv, seen, ts, cin, cs, cv, op, upd, dontupd, uafter, taint, nops, nenv, nupd, last, hist>>
-view == <<tv, seen, ts, cin, cs, cv, op, upd, dontupd, uafter, taint, nops, nenv, nupd>>
+vars == <<tv, seen, ts, cin, cs, cv, op, upd, dontupd, uafter, taint, ndone, nops, nenv, nupd, last, hist>>
+view == <<tv, seen, ts, cin, cs, cv, op, upd, dontupd, uafter, taint, ndone, nops, nenv, nupd>>
 
-NoOp == [k |-> "none", st |-> "none", rs |-> "", rv |-> 0, late |-> FALSE]
+NoOp == [k |-> "none", st |-> "none", rs |-> "", rv |-> 0, late |-> FALSE, seq |-> 0]
 NoLast == [e |-> "none", in |-> FALSE, v |-> 0, fresh |-> FALSE, late |-> FALSE]
 H(a, x) == hist' = IF Len(hist) < MaxHist THEN Append(hist, [a |-> a, x |-> x]) ELSE hist
 
 Init == /\ C!QCInit /\ ts = "Queued"
         /\ cin = FALSE /\ cs = "" /\ cv = 0
-        /\ op = NoOp /\ upd = FALSE /\ dontupd = FALSE /\ uafter = FALSE /\ taint = FALSE
+        /\ op = NoOp /\ upd = FALSE /\ dontupd = FALSE /\ uafter = FALSE /\ taint = FALSE /\ ndone = 0
         /\ nops = 0 /\ nenv = 0 /\ nupd = 0 /\ last = NoLast /\ hist = <<>>
 
 Obs(in, v, fresh, late) == last' = [e |-> "cache", in |-> in, v |-> v, fresh |-> fresh, late |-> late]
@@ -51,7 +53,7 @@ Env(a, from, to) ==
     /\ nenv < MaxEnv /\ ts \in from
     /\ SetTruth(to) /\ nenv' = nenv + 1
     /\ NoObs("truth") /\ H(a, "")
-    /\ UNCHANGED <<cin, cs, cv, op, upd, dontupd, uafter, taint, nops, nupd>>
+    /\ UNCHANGED <<cin, cs, cv, op, upd, dontupd, uafter, taint, ndone, nops, nupd>>
 UserCancel == Env("usercancel", {"Queued", "Locked", "Running"}, "Cancelled")
 Running == Env("running", {"Locked"}, "Running")
 Complete == Env("complete", {"Running"}, "Complete")
@@ -59,10 +61,10 @@ Complete == Env("complete", {"Running"}, "Complete")
 \* the dispatcher calls Lock / Unlock / Cancel (request sent)
 Call(k) ==
     /\ op.k = "none" /\ nops < MaxOps
-    /\ op' = [NoOp EXCEPT !.k = k, !.st = "sent"]
+    /\ op' = [NoOp EXCEPT !.k = k, !.st = "sent", !.seq = ndone]
     /\ nops' = nops + 1
     /\ NoObs("none") /\ H("call", k)
-    /\ UNCHANGED <<qcvars, ts, cin, cs, cv, upd, dontupd, uafter, taint, nenv, nupd>>
+    /\ UNCHANGED <<qcvars, ts, cin, cs, cv, upd, dontupd, uafter, taint, ndone, nenv, nupd>>
 
 \* the API server performs it
 Commit ==
@@ -77,33 +79,34 @@ Commit ==
           ELSE /\ UNCHANGED <<qcvars, ts>> /\ NoObs("none")
                /\ op' = [op EXCEPT !.st = "failed"]
     /\ H("commit", op.k)
-    /\ UNCHANGED <<cin, cs, cv, upd, dontupd, uafter, taint, nops, nenv, nupd>>
+    /\ UNCHANGED <<cin, cs, cv, upd, dontupd, uafter, taint, ndone, nops, nenv, nupd>>
 
 \* the answer arrives: updateWithResp
 Deliver ==
     /\ op.st \in {"committed", "failed"}
-    /\ IF op.st = "committed"
+    /\ IF op.st = "committed" /\ ~(Fix /\ op.seq # ndone)
        THEN /\ dontupd' = (dontupd \/ upd)
             /\ IF cin THEN cs' = op.rs /\ cv' = op.rv ELSE UNCHANGED <<cs, cv>>
             /\ C!CacheObsEff(cin, IF cin THEN op.rv ELSE 0)
             /\ Obs(cin, IF cin THEN op.rv ELSE 0, FALSE, op.late)
        ELSE /\ UNCHANGED <<qcvars, cs, cv, dontupd>> /\ NoObs("none")
     /\ op' = NoOp
-    /\ taint' = (taint \/ (op.st = "committed" /\ op.late /\ cin))
+    /\ taint' = (taint \/ (op.st = "committed" /\ op.late /\ cin /\ ~Fix))
     /\ H("deliver", op.k)
-    /\ UNCHANGED <<ts, cin, upd, uafter, nops, nenv, nupd>>
+    /\ UNCHANGED <<ts, cin, upd, uafter, ndone, nops, nenv, nupd>>
 
 UpdStart ==
     /\ ~upd /\ nupd < MaxUpd
     /\ upd' = TRUE /\ dontupd' = FALSE /\ uafter' = (op.st # "none")
     /\ nupd' = nupd + 1
     /\ NoObs("none") /\ H("updstart", "")
-    /\ UNCHANGED <<qcvars, ts, cin, cs, cv, op, taint, nops, nenv>>
+    /\ UNCHANGED <<qcvars, ts, cin, cs, cv, op, taint, ndone, nops, nenv>>
 
 \* the poll sees the server's state now; applied unless the entry is in dontupdate
 UpdEnd ==
     /\ upd
-    /\ LET listed == ts \in {"Queued", "Locked", "Running"} \/ cin IN
+    /\ ndone' = ndone + 1
+    /\ LET listed == ts \in {"Queued", "Locked", "Running"} \/ (cin /\ cs \notin {"Complete", "Cancelled"}) IN
        IF dontupd
        THEN UNCHANGED <<cin, cs, cv>>
        ELSE cin' = listed /\ cs' = (IF listed THEN ts ELSE "") /\ cv' = (IF listed THEN tv ELSE 0)
@@ -120,7 +123,7 @@ Forget ==
     /\ cin /\ cs \in {"Complete", "Cancelled"}
     /\ cin' = FALSE /\ cs' = "" /\ cv' = 0
     /\ NoObs("none") /\ H("forget", "")
-    /\ UNCHANGED <<qcvars, ts, op, upd, dontupd, uafter, taint, nops, nenv, nupd>>
+    /\ UNCHANGED <<qcvars, ts, op, upd, dontupd, uafter, taint, ndone, nops, nenv, nupd>>
 
 Next == UserCancel \/ Running \/ Complete \/ (\E k \in {"lock", "unlock", "cancel"} : Call(k)) \/ Commit \/ Deliver
         \/ UpdStart \/ UpdEnd \/ Forget
